@@ -127,7 +127,15 @@ def run_history(history, last_via_ctor_first=False):
             else:
                 if grid is None:
                     grid = xgcm.Grid(ds, coords=coords, periodic=False, autoparse_metadata=False)
-                grid.set_metrics((KEYS | ILL_KEYS)[call["k"]], list(call["vs"]), overwrite=call["ow"])
+                key = (KEYS | ILL_KEYS)[call["k"]]
+                vs = list(call["vs"])
+                # spellings of the same call: axis set as a string / tuple / permuted tuple / list, one variable as a string
+                sp = (step * 7 + len(history) * 3 + len(vs) + (1 if call["ow"] else 0)) % 4
+                if call["k"] in SPELLINGS:
+                    key = [SPELLINGS[call["k"]][0], SPELLINGS[call["k"]][1], list(key), key][sp]
+                if len(vs) == 1 and sp % 2 == 1:
+                    vs = vs[0]
+                grid.set_metrics(key, vs, overwrite=call["ow"])
         except ValueError as ex:
             out = {"k": "refused", "msg": str(ex)[:120]}
         except Exception as ex:
